@@ -10,7 +10,8 @@
     of the iterable in turn): [visit]. *)
 From CM Require Export Model.PySem Model.Rewrites.
 
-Inductive kernel := KCombineSW | KCombineInst | KInvert | KGenerator | KSetLit | KHasattr.
+Inductive kernel := KCombineSW | KCombineInst | KInvert | KGenerator | KSetLit | KHasattr
+                  | KEmptySeq | KEmptySeqTest (* the expression is the test of an `if` *) | KIdentity.
 
 Definition under_binder {A} (rho : env) (x : N) (it : expr) (k : env -> list A) : list A :=
   match eval rho it with
@@ -305,6 +306,7 @@ Definition same_kind (rho : env) (lt x : expr) : bool :=
   | Val (VList _) => match lt with EList _ => true | _ => false end
   | Val (VTuple _) => match lt with ETuple _ => true | _ => false end
   | Val _ => false
+  | Raise OutOfModel => false        (* the model declines: nothing is claimed *)
   | Raise _ => true
   end.
 Definition empty_seq_action_ok (rho : env) (a : es_action) : bool :=
@@ -333,6 +335,7 @@ Definition identity_node_ok (rho : env) (n : expr) : bool :=
   | ECmp _ l [(o, c)], Some (ECmp _ _ [(o', _)]) =>
       match eval rho l, eval rho c with
       | Val v, Val w => cres_eqb (cmp_op o v w) (cmp_op o' v w)
+      | Raise OutOfModel, _ | _, Raise OutOfModel => false      (* the model declines: nothing is claimed *)
       | _, _ => true
       end
   | _, _ => true
